@@ -204,7 +204,8 @@ def _ind_case(rng, size, spec, programs=False, mgr=True):
                 s_ = rng.randint(-3, 6)
                 # explicit end index: within the documented use (an end below -len is re-normalised a second time by the
                 # sub-indicators of the real code, which the model - indices normalised once - does not follow: outside the domain)
-                e_ = "-" if rng.random() < 0.6 else str(rng.choice([s_ + 1, s_ + 2, s_ + 3] if s_ >= 0 else [-1]))
+                # (likewise a start below -len, which only the default end tolerates)
+                e_ = "-" if (rng.random() < 0.6 or s_ < 0) else str(rng.choice([s_ + 1, s_ + 2, s_ + 3]))
                 lines.append(f"icidx s={s_} e={e_}")
             else:
                 lines.append("icalc")
@@ -592,3 +593,6 @@ def run_component(comp, seed, n_cases, size, workers=None, tz=None):
 def regen_case(comp, seed, idx, size):
     genf, vname = resolve_component(comp)
     return genf(gen.rng_for(seed, comp, idx), size)
+
+
+from . import corr_settings  # noqa: E402,F401  (registers the "settings" component)
